@@ -3,6 +3,7 @@
   Property theorems only (helpers in HealSparse/Lemmas).
 -/
 import HealSparse.Lemmas.Core
+import HealSparse.Model.FitsIO
 import HealSparse.Lemmas.Coverage
 namespace HS
 namespace C04
@@ -56,6 +57,13 @@ theorem covered_in_range (c : Cfg) (vc : VCfg V) (s : State V) (h : Inv c vc s) 
   have hi := h.idxOf_covered hp hc
   rw [hi.2.2]
   exact ⟨by exact_mod_cast hi.1, by exact_mod_cast hi.2.1⟩
+
+/-- every file written from a well-formed map conforms to the published layout: its COV and
+    SPARSE extensions ARE the coverage index and the storage (and a full read gives them back) -/
+theorem file_layout (c : Cfg) (vc : VCfg V) (s : State V) (h : Inv c vc s) :
+    Inv c vc (⟨(writeFits s).cov, (writeFits s).data⟩ : State V) ∧ readFull (writeFits s) = s := by
+  cases s
+  exact ⟨h, rfl⟩
 
 /-- non-vacuity: a concrete non-trivial state (two blocks allocated out of order) satisfies `Inv`. -/
 example : Inv (V := Nat) ⟨3, 1⟩ ⟨0, fun x => x != 0⟩
